@@ -41,6 +41,11 @@ type SleeperCfg struct {
 	LateForkMin int
 	LateForkMax int
 	OnlyLate    bool // drop the fork-free and the initial-fork variants (they belong to another configuration)
+	// NestedForks: (with Forks) one forker with THREE branches: (a) an orphan sibling right after the first events
+	// (never referenced) followed by a late fork on the surviving branch (the "fork of a fork" has LateForkMin..Max
+	// as its round and is adopted by one chosen validator); (b) three different first events of the forker: one
+	// never referenced, one adopted by a chosen validator, and the regular one.
+	NestedForks bool
 }
 
 // GenSleeper enumerates the family.
@@ -84,6 +89,27 @@ func GenSleeper(cfg SleeperCfg, mine func(i int) bool, visit func(d *lref.DAG, d
 				}
 			}
 		}
+		var nested []forkMode
+		if cfg.NestedForks {
+			for f := 0; f < n; f++ {
+				if uint64(cfg.W.W[f])*3 >= totalW(cfg.W.W) {
+					continue
+				}
+				for a := 0; a < n; a++ {
+					if a == f {
+						continue
+					}
+					for r := cfg.LateForkMin; r <= cfg.LateForkMax; r++ {
+						for m := 0; m < n; m++ {
+							if m != f {
+								nested = append(nested, forkMode{{f, -1, -1, -1}, {f, a, r, m}})
+							}
+						}
+					}
+					nested = append(nested, forkMode{{f, -1, -2, 0}, {f, a, -2, 1}})
+				}
+			}
+		}
 		if cfg.OnlyLate {
 			forkModes, singles = nil, nil
 		}
@@ -93,6 +119,7 @@ func GenSleeper(cfg SleeperCfg, mine func(i int) bool, visit func(d *lref.DAG, d
 		for _, s1 := range lateSingles {
 			forkModes = append(forkModes, forkMode{s1})
 		}
+		forkModes = append(forkModes, nested...)
 		if cfg.TwoForkers {
 			for _, s1 := range singles {
 				for _, s2 := range singles {
@@ -243,6 +270,31 @@ func buildSleeperPrefix(cfg SleeperCfg, rot int, forks [][4]int, dropWho, dropWh
 		forker := fk[0]
 		if fk[2] > 0 {
 			continue // late fork: emitted in phase 2
+		}
+		if fk[2] == -2 {
+			// one more FIRST event of the forker (no self-parent), with a single other parent chosen by fk[3], so
+			// that several such siblings differ from each other and from the regular first event
+			var os []int
+			for u := 0; u < n; u++ {
+				if u != forker && tips[u] >= 0 {
+					os = append(os, tips[u])
+				}
+			}
+			if len(os) == 0 {
+				return nil, nil, nil
+			}
+			pick := os[fk[3]%len(os)]
+			ev := d.Events[tips[forker]]
+			if len(ev.Parents) == 1 && ev.Parents[0] == pick {
+				return nil, nil, nil // would duplicate the regular first event
+			}
+			for _, x := range d.Events {
+				if x.Creator == forker && x.Seq == 1 && len(x.Parents) == 1 && x.Parents[0] == pick {
+					return nil, nil, nil // would duplicate an existing first event
+				}
+			}
+			deads[fi] = addEvent(d, forker, -1, []int{pick})
+			continue
 		}
 		// the forker emits two second events with the same self-parent: the first one is left behind
 		var os []int
